@@ -812,9 +812,22 @@ var fwdClasses = []string{"wrap", "std", "min", "extra", "caseins", "dup", "null
 	"garbage", "empty", "trunc", "trailing", "desttype", "badb64", "array", "string", "number", "metatype"}
 
 // rawEnvelope builds the payload of the consumed message for a class and says what json.Unmarshal must make of it.
+// destPool holds destination topic names that deserve attention for the forwarder under test: its own forwarder
+// topic (a two-hop chain whose forwarders share the default topic name is a valid set-up: input and output are
+// different Pub/Subs), look-alikes of it and other plain names. rawEnvelope draws from it in a third of the cases.
+var destPool []string
+
+func setDestPool(own string) {
+	destPool = []string{own, own, own + " ", " " + own, strings.ToUpper(own), own + "2", strings.TrimSuffix(own, "c"),
+		"forwarder_topic", "Forwarder_Topic", "forwarder-topic", "events", "a"}
+}
+
 func rawEnvelope(class string, rng *wh.Rng) ([]byte, envDesc) {
 	d := rndMsg(rng, rndUtf8)
 	dst := "to-" + rndUtf8(rng, 5)
+	if len(destPool) > 0 && rng.Intn(3) == 0 {
+		dst = destPool[rng.Intn(len(destPool))]
+	}
 	switch class {
 	case "wrap":
 		w, err := forwarder.VerifWrapMessageInEnvelope(dst, d.build())
@@ -923,11 +936,13 @@ func fwdCases(out *wh.Out, rng *wh.Rng, rounds int) {
 		out.Case("fwdtopic "+wh.HexS(cfgTopic), wh.HexS(env.topic))
 		env.close()
 	}
-	for _, ack := range []bool{false, true} {
-		env, err := newFwd("", ack)
+	for _, ackCfg := range [][2]string{{"0", ""}, {"1", ""}, {"0", "fwd-" + strconv.Itoa(rng.Intn(1000))}, {"1", "chain"}} {
+		ack, cfgTopic := ackCfg[0] == "1", ackCfg[1]
+		env, err := newFwd(cfgTopic, ack)
 		if err != nil {
 			fatal("forwarder setup", err)
 		}
+		setDestPool(env.topic)
 		n := 0
 		failEvery := 2 + rng.Intn(4)
 		for r := 0; r < rounds; r++ {
@@ -939,8 +954,11 @@ func fwdCases(out *wh.Out, rng *wh.Rng, rounds int) {
 				n++
 				fail := n%failEvery == 0 // the destination fails on every k-th message
 				obs := env.run(raw, fail, rng)
-				out.Case("fwd "+bit(ack)+" "+d.token()+" "+dest(fail)+" "+class, obs)
+				out.Case("fwd "+bit(ack)+" "+d.token()+" "+dest(fail)+" "+class+" "+wh.HexS(cfgTopic), obs)
 				out.Count("fwd.class." + class)
+				if !d.bad && d.dest == env.topic {
+					out.Count("fwd.dest_is_forwarder_topic")
+				}
 				if fail {
 					out.Count("fwd.dest_fail")
 				}
@@ -980,7 +998,7 @@ func fwdCases(out *wh.Out, rng *wh.Rng, rounds int) {
 				if !ds[i].bad && ds[i].dest != "" {
 					calls = env.pub.callsFor(ds[i].msg.uuid)
 				}
-				out.Case("fwd "+bit(ack)+" "+ds[i].token()+" "+dest(fails[i])+" "+classes[i], renderPubs(calls, false)+" S:"+st[i])
+				out.Case("fwd "+bit(ack)+" "+ds[i].token()+" "+dest(fails[i])+" "+classes[i]+" "+wh.HexS(cfgTopic), renderPubs(calls, false)+" S:"+st[i])
 				out.Count("fwd.burst")
 			}
 			// nothing else may have been published (invalid envelopes never forwarded)
@@ -989,7 +1007,7 @@ func fwdCases(out *wh.Out, rng *wh.Rng, rounds int) {
 				total += len(c.msgs)
 			}
 			if total != len(scripts) {
-				out.Case("fwd "+bit(ack)+" bad ok burst-total", "P"+strconv.Itoa(total-len(scripts)+0)+" S:nack")
+				out.Case("fwd "+bit(ack)+" bad ok burst-total "+wh.HexS(cfgTopic), "P"+strconv.Itoa(total-len(scripts)+0)+" S:nack")
 			}
 		}
 		env.close()
@@ -1136,6 +1154,14 @@ func e2eCases(out *wh.Out, rng *wh.Rng, n int) {
 			for i := 0; i < n && !isStalled(); i++ {
 				d := rndMsg(rng, rndUtf8)
 				topic := "dst-" + rndUtf8(rng, 5)
+				if transport == "s" && rng.Intn(4) == 0 {
+					// the destination is named like the forwarder topic (the destination publisher is another Pub/Sub)
+					own := cfgTopic
+					if own == "" {
+						own = "forwarder_topic"
+					}
+					topic = []string{own, own + " ", "forwarder_topic", strings.ToUpper(own)}[rng.Intn(4)]
+				}
 				fail := transport == "s" && rng.Intn(3) == 0
 				var obs string
 				if transport == "s" {
@@ -1400,6 +1426,27 @@ func replay(out *wh.Out, line string) {
 			fatal("requeuer setup", err)
 		}
 		out.Case(line, env.run(c))
+		env.close()
+	case "fwd":
+		// fwd <ack> <bad | e:dest:uuid:payload:meta> <dest> <class> <configured forwarder topic>: the envelope is
+		// rebuilt as hand-written JSON from what it parses to (the original byte form depends on the seed)
+		if len(f) != 6 {
+			fatal("replay", errors.New("fwd line without forwarder topic"))
+		}
+		raw := []byte("\x00<not json")
+		if strings.HasPrefix(f[2], "e:") {
+			e := strings.Split(f[2], ":")
+			d := msgDesc{uuid: unhex(e[2]), meta: parseMeta(e[4])}
+			if e[3] != "-" {
+				d.payload = []byte(unhex(e[3]))
+			}
+			raw = []byte(stdJSON("destination_topic", unhex(e[1]), d, ""))
+		}
+		env, err := newFwd(unhex(f[5]), f[1] == "1")
+		if err != nil {
+			fatal("forwarder setup", err)
+		}
+		out.Case(line, env.run(raw, f[3] == "fail", wh.NewRng(1)))
 		env.close()
 	case "rqp":
 		c := &rqCase{delay: f[1] == "1", cancel: f[2] == "1", fail: f[4] == "fail", msg: parseMsgFields(f[5:8])}
